@@ -19,6 +19,7 @@ func init() {
 			"R18.3 ServerName/VerifyPeerCertificate/SessionTicketsDisabled/ClientSessionCache receive the same-named option on every success path; R18.4 RootCAs originates only from the supplied pool/CA material, is stored whenever a CA option is present, and no system pool is ever loaded; " +
 			"R18.5 whenever a certificate option is present the success return is reached only after Certificates was stored from the key-pair loader's result, every loader error is returned, the key type switch has an error default, and TLSTransport/TLSClient install that very config and propagate the error. " +
 			"R18.4 also: a given LoadedCA is added to the root pool on every success path. " +
+			"R18.1 also: no field of the options is rewritten. " +
 			"NOT decided: the handshake behaviour of crypto/tls for a given config; that the PEM/key material parses (crypto/x509).",
 		Assumptions: []string{"crypto/tls honours the fields of tls.Config as documented"},
 		Run:         runC18,
